@@ -10,12 +10,18 @@
 //              combiner = the NODE rprobe0(lhs, rhs) for n = 1, the sub-graph rprobe0(lhs, rhs) -> rprobe1 -> rprobe2 otherwise;
 //              a combiner graph instance is named <ordinal>#1 (ordinal = order of its start attempt in the run), so
 //              `fe <ordinal> <i> <n>` / `fx <ordinal> <i>` address the combiner instances
+//     reducez: as reduce, with an explicit (scalar, wired as const) ZERO: reduce(combiner, a, 1000).  A single live value needs the
+//              root combiner (position 0: value (+) zero); two live values in a tree of capacity >= 4 need position 1 and not
+//              position 0, so that the live-count transitions 1 -> 2 and 2 -> 1 CREATE one combiner and RETIRE another one in
+//              the same same-capacity `rebuild_structure` (phase 1 sets the retired one aside, phase 2 starts the created
+//              one, phase 3 stops the retired one; the unwind guard must put the set-aside one back when the start throws).
+//              The zero ticks in the first engine cycle, so the reduce node is evaluated there whatever the history does.
 // where `probes(key, ts)` is a child graph of 1..3 instrumented probe nodes in a chain
 // (probe0(key, ts) -> probe1(key, .) -> probe2(key, .)) whose start / eval / stop hooks log and can throw.
 // One output line per input line.
 //
 //   case <id>                     -> "case <id>"   (flushes a pending history first)
-//   cfg <map|switch|switchb|switchl|reduce> <n> <c> -> "ok" | "bad-op"    n = probes per child (1..3), c = cleanup_on_error (0|1)
+//   cfg <map|switch|switchb|switchl|reduce|reducez> <n> <c> -> "ok" | "bad-op"    n = probes per child (1..3), c = cleanup_on_error (0|1)
 //   fs <k>                        -> "ok"   the k-th probe start hook entered in this run throws (1-based, global count)
 //   fe <key> <i> <n>              -> "ok"   the n-th evaluation of probe i of the children of <key> throws (counted over generations)
 //   fx <key> <i>                  -> "ok"   every stop hook of probe i of the children of <key> throws
@@ -457,6 +463,7 @@ namespace
         bool is_switch{false};
         int  sw_shape{0};   // 0 = TS<Int> result (owned output), 1 = to_tsb result, 2 = to_tsl result (forwarding output)
         bool is_reduce{false};
+        bool has_zero{false};   // reducez: reduce_ with an explicit scalar zero
         int  nprobes{1};
         bool cleanup{true};
     };
@@ -495,6 +502,7 @@ namespace
             if (cfg.is_reduce)
             {
                 std::vector<WiringArg> rargs{scalar_arg(Value{combiner_fn(cfg.nprobes)}), ts_arg(a.erased())};
+                if (cfg.has_zero) { rargs.push_back(scalar_arg(Value{Int{1000}})); }
                 auto red = call_operator(w, "reduce", std::move(rargs), true);
                 Port<TS<Int>> r{red.output.erased()};
                 wire<stdlib::dense_record_impl>(w, r, Str{"hgv::out"});
@@ -660,11 +668,13 @@ int main()
             {
                 flush(false);
                 Cfg  c;
-                bool ok     = (w[1] == "map" || w[1] == "switch" || w[1] == "switchb" || w[1] == "switchl" || w[1] == "reduce") &&
+                bool ok     = (w[1] == "map" || w[1] == "switch" || w[1] == "switchb" || w[1] == "switchl" || w[1] == "reduce" ||
+                               w[1] == "reducez") &&
                           (w[2] == "1" || w[2] == "2" || w[2] == "3") && (w[3] == "0" || w[3] == "1");
                 c.is_switch = w[1] == "switch" || w[1] == "switchb" || w[1] == "switchl";
                 c.sw_shape  = w[1] == "switchb" ? 1 : w[1] == "switchl" ? 2 : 0;
-                c.is_reduce = w[1] == "reduce";
+                c.is_reduce = w[1] == "reduce" || w[1] == "reducez";
+                c.has_zero  = w[1] == "reducez";
                 c.nprobes   = ok ? static_cast<int>(to_i(w[2])) : 1;
                 c.cleanup   = w[3] == "1";
                 if (ok) { cfg = c; cfg_bad = false; std::cout << "ok\n"; }
